@@ -832,6 +832,17 @@ def part_fit(ctx, impl, rng, quick):
             dtype = rng.choice(['int', 'float'])
         args = dict(algo=algo, m=mspec(nr, nc, t, dtype=dtype), options=opts, force_bipartite=fb, np_seed=rng.randint(0, 10 ** 6))
         r = impl.call('c05', 'fit', args, timeout=120 if algo == 'kcenters' else 60)
+        if len(items) % 2 == 1 and 'ok' in r:
+            # the same fit on an estimator object that has been fitted on two other graphs (one bipartite) before: every attribute
+            # named by the property must be what the fresh object gives (nothing left over, nothing missing)
+            r2 = impl.call('c05', 'fit', dict(args, prior=True), timeout=120 if algo == 'kcenters' else 60)
+            ctx.traces += 1
+            if 'ok' in r2 and r2['ok'] != r['ok']:
+                diff = sorted(k_ for k_ in r['ok'] if r['ok'].get(k_) != r2['ok'].get(k_))
+                ctx.violation({'louvain': 'Louvain.fit', 'leiden': 'Leiden.fit', 'propagation': 'PropagationClustering.fit',
+                               'kcenters': 'KCenters.fit'}.get(algo, algo), 'outputs after earlier fits of the same object on other graphs '
+                              'differ from those of a fresh object: %s' % ', '.join(d_ + '_' for d_ in diff), case=args, algo=algo,
+                              check='stale_outputs', expected={k_: r['ok'][k_] for k_ in diff}, observed={k_: r2['ok'].get(k_) for k_ in diff})
         ctx.traces += 1
         ctx.count('fit:%s:%s' % (algo, k2), ('fit', args), nr + (nc if bip else 0) >= 3)
         if 'ok' not in r:
